@@ -313,14 +313,75 @@ def whole_cart(seed, fmt):
     return modes
 
 
+def whole_cart_both(seed, fmt):
+    """One Game object saved in both formats, one after the other (the order is part of the case): both files must
+    hold the cart's memory by the format descriptions, i.e. the twins load to identical contents."""
+    import tempfile
+    from pico8.game.formatter.p8 import P8Formatter
+    from pico8.game.formatter.p8png import P8PNGFormatter
+    ch = Choices(seed)
+    mem, modes = cartgen.memory_from_choices(ch)
+    version = 1 + ch.below(255)
+    code = compressible_code(ch)
+    label = expand(b'l' + seed, 8192) if ch.chance(128) else None
+    case = {'cart_seed': bytes(seed), 'fmt': fmt}
+    g = cartgen.make_game(mem, version=version, code=code, label=label)
+    pix = expand(b'p' + seed, 160 * 205 * 4)
+    rows = [pix[y * 640:(y + 1) * 640] for y in range(205)]
+    out = {}
+    with tempfile.TemporaryDirectory(prefix='c16b_') as td:
+        lab = os.path.join(td, 'label.png')
+        with open(lab, 'wb') as fh:
+            fh.write(refpng.encode(160, 205, rows))
+        order = ('png', 'p8') if fmt == 'png_then_p8' else ('p8', 'png')
+        for k, f in enumerate(order + order[:1]):         # the first format is written once more at the end
+            buf = io.BytesIO()
+            try:
+                if f == 'p8':
+                    P8Formatter.to_file(g, buf)
+                else:
+                    P8PNGFormatter.to_file(g, buf, label_fname=lab)
+            except Exception as e:
+                raise Violation('write #%d (%s) of one cart saved as %s raised %r' % (k + 1, f, '+'.join(order), e),
+                                case, 'both-write')
+            out[(k, f)] = buf.getvalue()
+            if cartgen.flat(g) != mem or [len(d) for d in cartgen.region_datas(g)] != [hi - lo for _n, lo, hi in cartgen.REGIONS]:
+                raise Violation('saving the cart as %s changed the memory of the cart object (region sizes %r)'
+                                % (f, [len(d) for d in cartgen.region_datas(g)]), case, 'both-cart-changed')
+    want_p8 = mem[:0x3100] + reffmt.music_mask(mem[0x3100:0x3200]) + mem[0x3200:]
+    for (k, f), data in sorted(out.items()):
+        what = 'write #%d (%s) of one cart saved as %s' % (k + 1, f, '+'.join(order))
+        try:
+            if f == 'p8':
+                r = reffmt.read_p8(data)
+                got = r['gfx'] + r['map'] + r['gff'] + r['music'] + r['sfx']
+                want = want_p8
+            else:
+                r = reffmt.read_p8png(data)
+                got, want = r['mem'], mem
+        except Exception as e:
+            raise Violation('%s is not readable by the format description: %r' % (what, e), case, 'both-format')
+        if got != want:
+            bad = [n for (n, lo, hi) in cartgen.REGIONS if got[lo:hi] != want[lo:hi]] or ['sizes']
+            raise Violation('%s: regions %s differ from the cart' % (what, bad), case, 'both-regions')
+        if r['version'] != version:
+            raise Violation('%s: version %r, cart has %d' % (what, r['version'], version), case, 'both-version')
+        if f == 'p8' and r['label'] != label:
+            raise Violation('%s: label section differs from the cart\'s label' % what, case, 'both-label')
+    if out[(0, order[0])] != out[(2, order[0])]:
+        raise Violation('saving the cart as %s again after saving it as %s gives a different file'
+                        % (order[0], order[1]), case, 'both-rewrite')
+    return modes
+
+
 def part_carts(ctx):
     def body(v):
         seed, fmt = v
-        modes = whole_cart(seed, fmt)
+        modes = whole_cart(seed, fmt) if fmt in ('p8', 'png') else whole_cart_both(seed, fmt)
         ctx.stats.case(seed + fmt.encode(), sum(1 for m in modes if m in ('random', 'ramp')) >= 1,
                        {'cart_seed': show(seed, 40), 'fmt': fmt, 'region_modes': modes}, ['cart_' + fmt])
-    ctx.hyp('carts', st.tuples(st.binary(min_size=40, max_size=40), st.sampled_from(['p8', 'png'])), body,
-            max_examples=60 if ctx.quick else 500)
+    ctx.hyp('carts', st.tuples(st.binary(min_size=40, max_size=40), st.sampled_from(['p8', 'png', 'png_then_p8', 'p8_then_png'])), body,
+            max_examples=90 if ctx.quick else 700)
 
 
 def part_regions(ctx):
@@ -401,7 +462,7 @@ def replay(case):
     if 'region' in case:
         check_region(case['region'], case['data'])
     elif 'cart_seed' in case:
-        whole_cart(case['cart_seed'], case['fmt'])
+        (whole_cart if case['fmt'] in ('p8', 'png') else whole_cart_both)(case['cart_seed'], case['fmt'])
     elif 'stego_seed' in case:
         stego_values(case['stego_seed'])
     else:
@@ -412,7 +473,7 @@ def vacuity(total, tier):
     msgs = []
     if total.classes.get('sfx_words', 0) != 65536:
         msgs.append('sfx note words enumerated: %d' % total.classes.get('sfx_words', 0))
-    for lab in ('cart_p8', 'cart_png', 'stego_values', 'music_flags'):
+    for lab in ('cart_p8', 'cart_png', 'cart_png_then_p8', 'cart_p8_then_png', 'stego_values', 'music_flags'):
         if not total.classes.get(lab):
             msgs.append('class %s never exercised' % lab)
     return msgs
